@@ -11,6 +11,7 @@ import Larking.Model.Trie
 import Larking.Model.Streams
 import Larking.Model.Param
 import Larking.Model.Registry
+import Larking.Model.Events
 import Larking.Gen.Params
 import Larking.Gen.Lexer
 namespace Larking.Driver
@@ -393,8 +394,39 @@ def handleRegistry : List String → Option String
       pure (runRegistry ops)
   | _ => none
 
+/-! ### C18: stats events of one RPC -/
+
+def showEv : Events.Ev → String
+  | .tag => "tag" | .inHeader => "inHeader" | .begin => "begin" | .inPayload => "inPayload"
+  | .outHeader => "outHeader" | .outPayload => "outPayload" | .outTrailer => "outTrailer" | .fin _ => "end"
+
+/-- the harness's handlers by shape: unary and client streams receive everything and then
+send; server streams receive one and send; bidi streams alternate. -/
+def scriptOf (cstream sstream : Bool) (recv send : Nat) : List Events.Act :=
+  if cstream && sstream then
+    (List.range (max recv send)).flatMap fun i =>
+      (if i < recv then [Events.Act.recvOk] else []) ++ (if i < send then [Events.Act.sendOk] else [])
+  else List.replicate recv .recvOk ++ List.replicate send .sendOk
+
+def handleEvents : List String → Option String
+  | ["events", proto, recv, send, failed, _body, cstream, sstream] => do
+      let p ← match proto with
+        | "http" => some Events.Proto.http
+        | "grpc" | "web" => some .grpc
+        | "ws" => some .ws
+        | _ => none
+      let r ← recv.toNat?
+      let s ← send.toNat?
+      let evs := Events.serve p (scriptOf (cstream == "true") (sstream == "true") r s) (failed == "1") .normal
+      let endS := match evs.getLast? with
+        | some (.fin true) => "err"
+        | some (.fin false) => "ok"
+        | _ => "none"
+      pure (",".intercalate (evs.map showEv) ++ "|" ++ endS)
+  | _ => none
+
 def handlers : List (List String → Option String) :=
-  [handleC05, handleC14C15, handleC17, handleC19, handleC04, handleRouting, handleStreams, handleParams, handleRegistry]
+  [handleC05, handleC14C15, handleC17, handleC19, handleC04, handleRouting, handleStreams, handleParams, handleRegistry, handleEvents]
 
 def handle (args : List String) : String :=
   match handlers.findSome? (fun h => h args) with
